@@ -5,6 +5,7 @@ CONSTANTS
  Creators = {}
  Subscribers = {}
  OtherType = {2}
+ MaxPre = 0
  MaxOps = 1
  MaxSends = 4
  MaxServes = 1
